@@ -449,6 +449,25 @@ func C03(r *vf.Run) {
 				} else {
 					e, sh, _, ok = runHistory(r, calls, false, 16384, "in-context")
 				}
+				if k%25 == 7 {
+					// a program spanning a bank and more: label-taking methods whose label is tens of thousands
+					// of bytes away (around the 32 KiB and 64 KiB marks); a branch that cannot be encoded must
+					// not come out as the encoding of some other branch
+					fcalls, _, _ := genFarHistory(g, false)
+					fe2, fsh, _, fok := runHistory(r, fcalls, false, 0x10100, "in-context-far")
+					if fok {
+						fex := fsh.expectFinalize()
+						err := fe2.Finalize()
+						switch {
+						case fex.ok && err == nil && string(fe2.Bytes()) != string(fex.code):
+							at := firstDiff(fe2.Bytes(), fex.code)
+							r.Fail("in-context-finalized-bytes", fmt.Sprintf("far program: after Finalize byte %d is %02x, the encoding has %02x there", at, fe2.Bytes()[at], fex.code[at]), histStrings(fcalls))
+						case !fex.ok && err == nil:
+							r.Fail("in-context-unencodable-branch-emitted", "far program: a label-taking branch whose label is out of reach was given an operand instead of being refused", histStrings(fcalls))
+						}
+						cells["in-context:far-program"]++
+					}
+				}
 				// with every label resolved, the label-taking methods' operands are part of the encoding too
 				if fe := sh.expectFinalize(); ok && fe.ok && len(sh.refs) > 0 {
 					if err := e.Finalize(); err == nil && string(e.Bytes()) != string(fe.code) {
